@@ -146,7 +146,15 @@ def check_factorisation(task, a, ar, res, what):
         close(Q0 @ R0, ref, "reconstruction", "Q R vs permuted input")
         unitary(Q0, tuple(range(k0)), "Q-isometry", "Q^dagger Q vs identity")
         # R upper triangular with non-negative diagonal, in the merged-matrix basis
-        Rm = R0.fuse_legs(axes=(0, tuple(range(1, k1 + 1))), mode="hard") if k1 > 1 else R0.fuse_meta_to_hard()
+        # the library merges the NATIVE column legs in one flat fusion; a meta-fused column leg is a group of native legs, so it is opened first
+        # (fusing it as a unit would give the nested ordering of the sub-blocks, in which R is triangular only up to a permutation)
+        Rf = R0
+        for _ in range(8):
+            metas = [i for i, l in enumerate(Rf.get_legs()) if i > 0 and l.is_fused() and l.history().startswith("m")]
+            if not metas:
+                break
+            Rf = Rf.unfuse_legs(axes=metas[0])
+        Rm = Rf.fuse_legs(axes=(0, tuple(range(1, Rf.ndim))), mode="hard") if Rf.ndim > 2 else Rf
         for lt in Rm.get_legs(0).t:
             for rt in Rm.get_legs(1).t:
                 try:
@@ -314,7 +322,21 @@ class OpFactorise(e1.Op):
     def run(self, task, rec, ins):
         ar = rec["args"]
         a = self._input(ins, ar, task)
-        res = self._call(a, ar)
+        try:
+            res = self._call(a, ar)
+        except ValueError as e:
+            # eig documents that it gives up on (nearly) defective matrices ("Biorthonormalization ... failed", backend_np.py:387-416).  That
+            # rejection is accepted only if the dense matrix confirms it: some left/right eigenvector pair has an overlap below 0.02.
+            if ar["kind"] != "eig" or "iorthonormal" not in str(e) or _generating():
+                raise
+            M = a.fuse_legs(axes=(tuple(ar["axes"][0]), tuple(ar["axes"][1])), mode="hard").to_numpy()
+            import scipy.linalg as _sl
+            _, VL, VR = _sl.eig(M, left=True, right=True)
+            d = np.abs(np.sum(np.conjugate(VL) * VR, axis=0))
+            if M.shape[0] == M.shape[1] and d.size and float(d.min()) < 0.02:
+                core.current_world().probes["eig_rejected_nearly_defective_input"] += 1
+                return []
+            raise
         if not _generating():
             what = "op %d %s %s" % (rec["id"], ar["kind"], {k: v for k, v in ar.items() if k not in ("kind", "gram", "lazy")})
             check_factorisation(task, a, ar, res, what)
